@@ -73,6 +73,7 @@ type ScanOut struct {
 	Extra    []string  `json:"extra,omitempty"`
 	Unknown  []string  `json:"unknown,omitempty"`
 	Phase    []string  `json:"phase,omitempty"`
+	PhaseCls string    `json:"phase_cls"`
 	IsJoin   bool      `json:"is_join,omitempty"`
 	SQL      string    `json:"sql"`
 	Windows  int       `json:"windows"`
@@ -192,7 +193,7 @@ func runExtract(out, tier string, clusters []string, only string) {
 						info := tablesInfo[c.Table]
 						so := ScanOut{ScanKey: ScanKey{ep.Name, cl, si, ci}, Table: c.Table, Kind: info.Kind, WRule: info.WRule, API: ep.API, Signal: ep.Signal,
 							Metric: ep.Metric, UpIncl: ep.UpIncl, NoWindow: ep.NoWindow, Lookback: int64(ep.Lookback), Offset: int64(ep.Offset), Unit: int64(ep.Unit), Instant: ep.Instant, HasType: c.HasTy, Type: c.Type, Extra: c.Extra, Unknown: c.Unk,
-							Phase: st.Scans[ci].Phase, IsJoin: c.IsJoin, SQL: st.SQL, Windows: 1}
+							Phase: st.Scans[ci].Phase, PhaseCls: c.Phase, IsJoin: c.IsJoin, SQL: st.SQL, Windows: 1}
 						mergeBound(&so.TsLo, c.TsLo, true, "", &so)
 						mergeBound(&so.TsHi, c.TsHi, true, "", &so)
 						mergeBound(&so.DLo, c.DLo, true, "", &so)
@@ -228,6 +229,9 @@ func runExtract(out, tier string, clusters []string, only string) {
 					merge(&o.TsHi, c.TsHi, "ts upper")
 					merge(&o.DLo, c.DLo, "date lower")
 					merge(&o.DHi, c.DHi, "date upper")
+					if o.PhaseCls != c.PhaseCls {
+						o.Extra = append(o.Extra, fmt.Sprintf("step filter differs between windows: %s / %s", o.PhaseCls, c.PhaseCls))
+					}
 					if o.HasType != c.HasType || fmt.Sprint(o.Type) != fmt.Sprint(c.Type) {
 						o.Extra = append(o.Extra, "type filter differs between windows")
 					}
